@@ -89,6 +89,16 @@ func check(c queryCase) (fl *harness.Failure, oc outcome) {
 	stage = "evaluate"
 	// a fresh document per case: accessors reachable by reflection include mutating ones
 	result, err := engine.Evaluate(docs(c.Doc))
+	// "evaluating a compiled query against any document": the same compiled query is evaluated
+	// again, on fresh documents of the same kind and of another kind, whatever the first
+	// evaluation returned. Each call returns a value or an error.
+	stage = "evaluate-again"
+	for _, other := range []string{c.Doc, map[string]string{"empty": "family", "tiny": "two", "family": "empty", "two": "tiny"}[c.Doc]} {
+		if v, e := engine.Evaluate(docs(other)); v != nil && e != nil {
+			return harness.Failf("evaluate-contract", "the second evaluation of %q returned both a value and an error (%v)", c.Query, e), oc
+		}
+	}
+	stage = "evaluate"
 	if err != nil {
 		return nil, oc
 	}
